@@ -166,6 +166,19 @@ for _r1 in _REL1:
         REJECT.append('permit(principal, action, resource) when { true && principal %s %s || false };' % (_r1, _r2))
 REJECT += ['permit(principal, action, resource) when { principal is User in resource == true };', 'permit(principal, action, resource) when { 1 + principal is User in resource in resource };',
            'permit(principal, action, resource) when { if principal is User in resource has k then 1 else 2 };']
+# a malformed escape in EVERY position that takes a string, and the remaining "something is missing" shapes of each production
+_T = 'permit(principal, action, resource) when { %s };'
+for _bad in ('"\\q"', '"\\u{110000}"', '"\\x4"', '"\\u{}"', '"\\*"'):
+    REJECT += ['@id(%s)\npermit(principal, action, resource);' % _bad, 'permit(principal == User::%s, action, resource);' % _bad,
+               'permit(principal, action in [Action::%s], resource);' % _bad, 'permit(principal, action, resource is Doc in Folder::%s);' % _bad,
+               _T % ('context has %s' % _bad), _T % ('context[%s]' % _bad), _T % ('{%s: 1}.a' % _bad), _T % ('User::%s == principal' % _bad),
+               _T % ('principal in [User::"a", User::%s]' % _bad), _T % ('ip(%s).isIpv4()' % _bad), _T % ('%s == "x"' % _bad)]
+REJECT.remove(_T % '"\\*" == "x"') if (_T % '"\\*" == "x"') in REJECT else None
+REJECT += [_T % ('"a" like %s' % _bad) for _bad in ('"\\q"', '"\\u{110000}"', '"\\x4"', '"\\u{}"')]
+REJECT += [_T % x for x in ('principal is', 'principal is 1', 'principal is User in', 'principal is User in 1 +', '1 *', '1 * *', '1 +', '- ', '!', '{a: 1 b: 2}.a', '{1: 2}.a', '{a 1}.a',
+                            '{a: }.a', '{a: 1,, b: 2}.a', '[1 2]', '[1,,2]', '[,]', 'context.', 'context.1', 'context[1]', 'context["a"', 'context.f(', 'context.contains(1',
+                            'context.contains(1 2)', 'ip("1.1.1.1"', 'if true then 1', 'if true 1 else 2', 'if then 1 else 2', 'User::', 'User::a::', '::User::"a"',
+                            'principal has', 'principal has 1', 'principal has a.', 'principal has a."b"', 'principal like', 'principal like 1', 'principal like principal', '(1', '1)', '()')]
 for _k in RESERVED:
     for _t in IDENT_POSITIONS:
         _text = _t % _k
